@@ -225,6 +225,9 @@ def gen_tree(rng: random.Random, P: Dict[str, Any]) -> Tree:
                 populate(c)
             if kind == "final" and P["final_out"] and rng.random() < 0.7:
                 c.output = {"out": c.key}
+                if P.get("p_falsy_out") and rng.random() < P["p_falsy_out"]:
+                    # a declared output that happens to be falsy is still an output
+                    c.output = rng.choice([0, False, "", [], {}, 0.0])
         # make sure a compound has at least one non-final child to start in
         if node.kind == "compound":
             nonfinal = [c for c in node.children if c.kind != "final"]
